@@ -1,1 +1,442 @@
-(* Props/C20.v -- stub, to be filled in *)
+(* Props/C20.v -- property theorems only.  guard_<entry>: for all (non-negative) sizes and arguments, the explicit guards
+   of the entry point -- as regenerated from /repo/src into gen/GuardTable.v on this run -- let the call through
+   exactly when the arguments are conformable / in the documented range (Model/Guards.v). *)
+From Coq Require Import ZArith Bool Lia.
+From OV Require Import gen.GuardTable Model.Guards Proofs.Guards.
+Local Open Scope Z_scope.
+
+Theorem guard_vec_add_ref : forall n1 n2 : Z, 0 <= n1 -> 0 <= n2 -> (g_vec_add_ref n1 n2 = false <-> ok_vec_add_ref n1 n2).
+Proof. exact guard_vec_add_ref_lemma. Qed.
+Check guard_vec_add_ref : forall n1 n2 : Z, 0 <= n1 -> 0 <= n2 -> (g_vec_add_ref n1 n2 = false <-> ok_vec_add_ref n1 n2).
+Print Assumptions guard_vec_add_ref.
+
+Theorem guard_vec_sub_ref : forall n1 n2 : Z, 0 <= n1 -> 0 <= n2 -> (g_vec_sub_ref n1 n2 = false <-> ok_vec_sub_ref n1 n2).
+Proof. exact guard_vec_sub_ref_lemma. Qed.
+Check guard_vec_sub_ref : forall n1 n2 : Z, 0 <= n1 -> 0 <= n2 -> (g_vec_sub_ref n1 n2 = false <-> ok_vec_sub_ref n1 n2).
+Print Assumptions guard_vec_sub_ref.
+
+Theorem guard_vec_add_assign : forall n1 n2 : Z, 0 <= n1 -> 0 <= n2 -> (g_vec_add_assign n1 n2 = false <-> ok_vec_add_assign n1 n2).
+Proof. exact guard_vec_add_assign_lemma. Qed.
+Check guard_vec_add_assign : forall n1 n2 : Z, 0 <= n1 -> 0 <= n2 -> (g_vec_add_assign n1 n2 = false <-> ok_vec_add_assign n1 n2).
+Print Assumptions guard_vec_add_assign.
+
+Theorem guard_vec_sub_assign : forall n1 n2 : Z, 0 <= n1 -> 0 <= n2 -> (g_vec_sub_assign n1 n2 = false <-> ok_vec_sub_assign n1 n2).
+Proof. exact guard_vec_sub_assign_lemma. Qed.
+Check guard_vec_sub_assign : forall n1 n2 : Z, 0 <= n1 -> 0 <= n2 -> (g_vec_sub_assign n1 n2 = false <-> ok_vec_sub_assign n1 n2).
+Print Assumptions guard_vec_sub_assign.
+
+Theorem guard_vec_dot : forall n1 n2 : Z, 0 <= n1 -> 0 <= n2 -> (g_vec_dot n1 n2 = false <-> ok_vec_dot n1 n2).
+Proof. exact guard_vec_dot_lemma. Qed.
+Check guard_vec_dot : forall n1 n2 : Z, 0 <= n1 -> 0 <= n2 -> (g_vec_dot n1 n2 = false <-> ok_vec_dot n1 n2).
+Print Assumptions guard_vec_dot.
+
+Theorem guard_vec_dot_f64 : forall n1 n2 : Z, 0 <= n1 -> 0 <= n2 -> (g_vec_dot_f64 n1 n2 = false <-> ok_vec_dot_f64 n1 n2).
+Proof. exact guard_vec_dot_f64_lemma. Qed.
+Check guard_vec_dot_f64 : forall n1 n2 : Z, 0 <= n1 -> 0 <= n2 -> (g_vec_dot_f64 n1 n2 = false <-> ok_vec_dot_f64 n1 n2).
+Print Assumptions guard_vec_dot_f64.
+
+Theorem guard_vec_sum_slice : forall n s e : Z, 0 <= n -> 0 <= s -> 0 <= e -> (g_vec_sum_slice n s e = false <-> ok_vec_sum_slice n s e).
+Proof. exact guard_vec_sum_slice_lemma. Qed.
+Check guard_vec_sum_slice : forall n s e : Z, 0 <= n -> 0 <= s -> 0 <= e -> (g_vec_sum_slice n s e = false <-> ok_vec_sum_slice n s e).
+Print Assumptions guard_vec_sum_slice.
+
+Theorem guard_vec_product_slice : forall n s e : Z, 0 <= n -> 0 <= s -> 0 <= e -> (g_vec_product_slice n s e = false <-> ok_vec_product_slice n s e).
+Proof. exact guard_vec_product_slice_lemma. Qed.
+Check guard_vec_product_slice : forall n s e : Z, 0 <= n -> 0 <= s -> 0 <= e -> (g_vec_product_slice n s e = false <-> ok_vec_product_slice n s e).
+Print Assumptions guard_vec_product_slice.
+
+Theorem guard_mat_get_row : forall r c row : Z, 0 <= r -> 0 <= c -> 0 <= row -> (g_mat_get_row r c row = false <-> ok_mat_get_row r c row).
+Proof. exact guard_mat_get_row_lemma. Qed.
+Check guard_mat_get_row : forall r c row : Z, 0 <= r -> 0 <= c -> 0 <= row -> (g_mat_get_row r c row = false <-> ok_mat_get_row r c row).
+Print Assumptions guard_mat_get_row.
+
+Theorem guard_mat_get_col : forall r c col : Z, 0 <= r -> 0 <= c -> 0 <= col -> (g_mat_get_col r c col = false <-> ok_mat_get_col r c col).
+Proof. exact guard_mat_get_col_lemma. Qed.
+Check guard_mat_get_col : forall r c col : Z, 0 <= r -> 0 <= c -> 0 <= col -> (g_mat_get_col r c col = false <-> ok_mat_get_col r c col).
+Print Assumptions guard_mat_get_col.
+
+Theorem guard_mat_set_row : forall r c row vl : Z, 0 <= r -> 0 <= c -> 0 <= row -> 0 <= vl -> (g_mat_set_row r c row vl = false <-> ok_mat_set_row r c row vl).
+Proof. exact guard_mat_set_row_lemma. Qed.
+Check guard_mat_set_row : forall r c row vl : Z, 0 <= r -> 0 <= c -> 0 <= row -> 0 <= vl -> (g_mat_set_row r c row vl = false <-> ok_mat_set_row r c row vl).
+Print Assumptions guard_mat_set_row.
+
+Theorem guard_mat_set_col : forall r c col vl : Z, 0 <= r -> 0 <= c -> 0 <= col -> 0 <= vl -> (g_mat_set_col r c col vl = false <-> ok_mat_set_col r c col vl).
+Proof. exact guard_mat_set_col_lemma. Qed.
+Check guard_mat_set_col : forall r c col vl : Z, 0 <= r -> 0 <= c -> 0 <= col -> 0 <= vl -> (g_mat_set_col r c col vl = false <-> ok_mat_set_col r c col vl).
+Print Assumptions guard_mat_set_col.
+
+Theorem guard_mat_delete_row : forall r c row : Z, 0 <= r -> 0 <= c -> 0 <= row -> (g_mat_delete_row r c row = false <-> ok_mat_delete_row r c row).
+Proof. exact guard_mat_delete_row_lemma. Qed.
+Check guard_mat_delete_row : forall r c row : Z, 0 <= r -> 0 <= c -> 0 <= row -> (g_mat_delete_row r c row = false <-> ok_mat_delete_row r c row).
+Print Assumptions guard_mat_delete_row.
+
+Theorem guard_mat_multiply : forall r c vl : Z, 0 <= r -> 0 <= c -> 0 <= vl -> (g_mat_multiply r c vl = false <-> ok_mat_multiply r c vl).
+Proof. exact guard_mat_multiply_lemma. Qed.
+Check guard_mat_multiply : forall r c vl : Z, 0 <= r -> 0 <= c -> 0 <= vl -> (g_mat_multiply r c vl = false <-> ok_mat_multiply r c vl).
+Print Assumptions guard_mat_multiply.
+
+Theorem guard_mat_swap_rows : forall r c r1 r2 : Z, 0 <= r -> 0 <= c -> 0 <= r1 -> 0 <= r2 -> (g_mat_swap_rows r c r1 r2 = false <-> ok_mat_swap_rows r c r1 r2).
+Proof. exact guard_mat_swap_rows_lemma. Qed.
+Check guard_mat_swap_rows : forall r c r1 r2 : Z, 0 <= r -> 0 <= c -> 0 <= r1 -> 0 <= r2 -> (g_mat_swap_rows r c r1 r2 = false <-> ok_mat_swap_rows r c r1 r2).
+Print Assumptions guard_mat_swap_rows.
+
+Theorem guard_mat_fill_row : forall r c row : Z, 0 <= r -> 0 <= c -> 0 <= row -> (g_mat_fill_row r c row = false <-> ok_mat_fill_row r c row).
+Proof. exact guard_mat_fill_row_lemma. Qed.
+Check guard_mat_fill_row : forall r c row : Z, 0 <= r -> 0 <= c -> 0 <= row -> (g_mat_fill_row r c row = false <-> ok_mat_fill_row r c row).
+Print Assumptions guard_mat_fill_row.
+
+Theorem guard_mat_fill_col : forall r c col : Z, 0 <= r -> 0 <= c -> 0 <= col -> (g_mat_fill_col r c col = false <-> ok_mat_fill_col r c col).
+Proof. exact guard_mat_fill_col_lemma. Qed.
+Check guard_mat_fill_col : forall r c col : Z, 0 <= r -> 0 <= c -> 0 <= col -> (g_mat_fill_col r c col = false <-> ok_mat_fill_col r c col).
+Print Assumptions guard_mat_fill_col.
+
+Theorem guard_mat_solve_basic : forall r c bl : Z, 0 <= r -> 0 <= c -> 0 <= bl -> (g_mat_solve_basic r c bl = false <-> ok_mat_solve_basic r c bl).
+Proof. exact guard_mat_solve_basic_lemma. Qed.
+Check guard_mat_solve_basic : forall r c bl : Z, 0 <= r -> 0 <= c -> 0 <= bl -> (g_mat_solve_basic r c bl = false <-> ok_mat_solve_basic r c bl).
+Print Assumptions guard_mat_solve_basic.
+
+Theorem guard_mat_lu : forall r c : Z, 0 <= r -> 0 <= c -> (g_mat_lu r c = false <-> ok_mat_lu r c).
+Proof. exact guard_mat_lu_lemma. Qed.
+Check guard_mat_lu : forall r c : Z, 0 <= r -> 0 <= c -> (g_mat_lu r c = false <-> ok_mat_lu r c).
+Print Assumptions guard_mat_lu.
+
+Theorem guard_mat_solve_lu : forall r c bl : Z, 0 <= r -> 0 <= c -> 0 <= bl -> (g_mat_solve_lu r c bl = false <-> ok_mat_solve_lu r c bl).
+Proof. exact guard_mat_solve_lu_lemma. Qed.
+Check guard_mat_solve_lu : forall r c bl : Z, 0 <= r -> 0 <= c -> 0 <= bl -> (g_mat_solve_lu r c bl = false <-> ok_mat_solve_lu r c bl).
+Print Assumptions guard_mat_solve_lu.
+
+Theorem guard_mat_inverse : forall r c : Z, 0 <= r -> 0 <= c -> (g_mat_inverse r c = false <-> ok_mat_inverse r c).
+Proof. exact guard_mat_inverse_lemma. Qed.
+Check guard_mat_inverse : forall r c : Z, 0 <= r -> 0 <= c -> (g_mat_inverse r c = false <-> ok_mat_inverse r c).
+Print Assumptions guard_mat_inverse.
+
+Theorem guard_mat_determinant : forall r c : Z, 0 <= r -> 0 <= c -> (g_mat_determinant r c = false <-> ok_mat_determinant r c).
+Proof. exact guard_mat_determinant_lemma. Qed.
+Check guard_mat_determinant : forall r c : Z, 0 <= r -> 0 <= c -> (g_mat_determinant r c = false <-> ok_mat_determinant r c).
+Print Assumptions guard_mat_determinant.
+
+Theorem guard_mat_add_ref : forall r c r2 c2 : Z, 0 <= r -> 0 <= c -> 0 <= r2 -> 0 <= c2 -> (g_mat_add_ref r c r2 c2 = false <-> ok_mat_add_ref r c r2 c2).
+Proof. exact guard_mat_add_ref_lemma. Qed.
+Check guard_mat_add_ref : forall r c r2 c2 : Z, 0 <= r -> 0 <= c -> 0 <= r2 -> 0 <= c2 -> (g_mat_add_ref r c r2 c2 = false <-> ok_mat_add_ref r c r2 c2).
+Print Assumptions guard_mat_add_ref.
+
+Theorem guard_mat_sub_ref : forall r c r2 c2 : Z, 0 <= r -> 0 <= c -> 0 <= r2 -> 0 <= c2 -> (g_mat_sub_ref r c r2 c2 = false <-> ok_mat_sub_ref r c r2 c2).
+Proof. exact guard_mat_sub_ref_lemma. Qed.
+Check guard_mat_sub_ref : forall r c r2 c2 : Z, 0 <= r -> 0 <= c -> 0 <= r2 -> 0 <= c2 -> (g_mat_sub_ref r c r2 c2 = false <-> ok_mat_sub_ref r c r2 c2).
+Print Assumptions guard_mat_sub_ref.
+
+Theorem guard_mat_add_assign_ref : forall r c r2 c2 : Z, 0 <= r -> 0 <= c -> 0 <= r2 -> 0 <= c2 -> (g_mat_add_assign_ref r c r2 c2 = false <-> ok_mat_add_assign_ref r c r2 c2).
+Proof. exact guard_mat_add_assign_ref_lemma. Qed.
+Check guard_mat_add_assign_ref : forall r c r2 c2 : Z, 0 <= r -> 0 <= c -> 0 <= r2 -> 0 <= c2 -> (g_mat_add_assign_ref r c r2 c2 = false <-> ok_mat_add_assign_ref r c r2 c2).
+Print Assumptions guard_mat_add_assign_ref.
+
+Theorem guard_mat_sub_assign_ref : forall r c r2 c2 : Z, 0 <= r -> 0 <= c -> 0 <= r2 -> 0 <= c2 -> (g_mat_sub_assign_ref r c r2 c2 = false <-> ok_mat_sub_assign_ref r c r2 c2).
+Proof. exact guard_mat_sub_assign_ref_lemma. Qed.
+Check guard_mat_sub_assign_ref : forall r c r2 c2 : Z, 0 <= r -> 0 <= c -> 0 <= r2 -> 0 <= c2 -> (g_mat_sub_assign_ref r c r2 c2 = false <-> ok_mat_sub_assign_ref r c r2 c2).
+Print Assumptions guard_mat_sub_assign_ref.
+
+Theorem guard_mat_mul_ref : forall r c r2 c2 : Z, 0 <= r -> 0 <= c -> 0 <= r2 -> 0 <= c2 -> (g_mat_mul_ref r c r2 c2 = false <-> ok_mat_mul_ref r c r2 c2).
+Proof. exact guard_mat_mul_ref_lemma. Qed.
+Check guard_mat_mul_ref : forall r c r2 c2 : Z, 0 <= r -> 0 <= c -> 0 <= r2 -> 0 <= c2 -> (g_mat_mul_ref r c r2 c2 = false <-> ok_mat_mul_ref r c r2 c2).
+Print Assumptions guard_mat_mul_ref.
+
+Theorem guard_band_fill_band : forall n m1 m2 band : Z, 0 <= n -> 0 <= m1 -> 0 <= m2 -> (g_band_fill_band n m1 m2 band = false <-> ok_band_fill_band n m1 m2 band).
+Proof. exact guard_band_fill_band_lemma. Qed.
+Check guard_band_fill_band : forall n m1 m2 band : Z, 0 <= n -> 0 <= m1 -> 0 <= m2 -> (g_band_fill_band n m1 m2 band = false <-> ok_band_fill_band n m1 m2 band).
+Print Assumptions guard_band_fill_band.
+
+Theorem guard_band_solve : forall n m1 m2 bl : Z, 0 <= n -> 0 <= m1 -> 0 <= m2 -> 0 <= bl -> (g_band_solve n m1 m2 bl = false <-> ok_band_solve n m1 m2 bl).
+Proof. exact guard_band_solve_lemma. Qed.
+Check guard_band_solve : forall n m1 m2 bl : Z, 0 <= n -> 0 <= m1 -> 0 <= m2 -> 0 <= bl -> (g_band_solve n m1 m2 bl = false <-> ok_band_solve n m1 m2 bl).
+Print Assumptions guard_band_solve.
+
+Theorem guard_band_index : forall n m1 m2 i j : Z, 0 <= n -> 0 <= m1 -> 0 <= m2 -> 0 <= i -> 0 <= j -> (g_band_index n m1 m2 i j = false <-> ok_band_index n m1 m2 i j).
+Proof. exact guard_band_index_lemma. Qed.
+Check guard_band_index : forall n m1 m2 i j : Z, 0 <= n -> 0 <= m1 -> 0 <= m2 -> 0 <= i -> 0 <= j -> (g_band_index n m1 m2 i j = false <-> ok_band_index n m1 m2 i j).
+Print Assumptions guard_band_index.
+
+Theorem guard_band_index_mut : forall n m1 m2 i j : Z, 0 <= n -> 0 <= m1 -> 0 <= m2 -> 0 <= i -> 0 <= j -> (g_band_index_mut n m1 m2 i j = false <-> ok_band_index_mut n m1 m2 i j).
+Proof. exact guard_band_index_mut_lemma. Qed.
+Check guard_band_index_mut : forall n m1 m2 i j : Z, 0 <= n -> 0 <= m1 -> 0 <= m2 -> 0 <= i -> 0 <= j -> (g_band_index_mut n m1 m2 i j = false <-> ok_band_index_mut n m1 m2 i j).
+Print Assumptions guard_band_index_mut.
+
+Theorem guard_band_add_ref : forall n m1 m2 n2 p1 p2 : Z, 0 <= n -> 0 <= m1 -> 0 <= m2 -> 0 <= n2 -> 0 <= p1 -> 0 <= p2 -> (g_band_add_ref n m1 m2 n2 p1 p2 = false <-> ok_band_add_ref n m1 m2 n2 p1 p2).
+Proof. exact guard_band_add_ref_lemma. Qed.
+Check guard_band_add_ref : forall n m1 m2 n2 p1 p2 : Z, 0 <= n -> 0 <= m1 -> 0 <= m2 -> 0 <= n2 -> 0 <= p1 -> 0 <= p2 -> (g_band_add_ref n m1 m2 n2 p1 p2 = false <-> ok_band_add_ref n m1 m2 n2 p1 p2).
+Print Assumptions guard_band_add_ref.
+
+Theorem guard_band_sub_ref : forall n m1 m2 n2 p1 p2 : Z, 0 <= n -> 0 <= m1 -> 0 <= m2 -> 0 <= n2 -> 0 <= p1 -> 0 <= p2 -> (g_band_sub_ref n m1 m2 n2 p1 p2 = false <-> ok_band_sub_ref n m1 m2 n2 p1 p2).
+Proof. exact guard_band_sub_ref_lemma. Qed.
+Check guard_band_sub_ref : forall n m1 m2 n2 p1 p2 : Z, 0 <= n -> 0 <= m1 -> 0 <= m2 -> 0 <= n2 -> 0 <= p1 -> 0 <= p2 -> (g_band_sub_ref n m1 m2 n2 p1 p2 = false <-> ok_band_sub_ref n m1 m2 n2 p1 p2).
+Print Assumptions guard_band_sub_ref.
+
+Theorem guard_band_add_assign_ref : forall n m1 m2 n2 p1 p2 : Z, 0 <= n -> 0 <= m1 -> 0 <= m2 -> 0 <= n2 -> 0 <= p1 -> 0 <= p2 -> (g_band_add_assign_ref n m1 m2 n2 p1 p2 = false <-> ok_band_add_assign_ref n m1 m2 n2 p1 p2).
+Proof. exact guard_band_add_assign_ref_lemma. Qed.
+Check guard_band_add_assign_ref : forall n m1 m2 n2 p1 p2 : Z, 0 <= n -> 0 <= m1 -> 0 <= m2 -> 0 <= n2 -> 0 <= p1 -> 0 <= p2 -> (g_band_add_assign_ref n m1 m2 n2 p1 p2 = false <-> ok_band_add_assign_ref n m1 m2 n2 p1 p2).
+Print Assumptions guard_band_add_assign_ref.
+
+Theorem guard_band_sub_assign_ref : forall n m1 m2 n2 p1 p2 : Z, 0 <= n -> 0 <= m1 -> 0 <= m2 -> 0 <= n2 -> 0 <= p1 -> 0 <= p2 -> (g_band_sub_assign_ref n m1 m2 n2 p1 p2 = false <-> ok_band_sub_assign_ref n m1 m2 n2 p1 p2).
+Proof. exact guard_band_sub_assign_ref_lemma. Qed.
+Check guard_band_sub_assign_ref : forall n m1 m2 n2 p1 p2 : Z, 0 <= n -> 0 <= m1 -> 0 <= m2 -> 0 <= n2 -> 0 <= p1 -> 0 <= p2 -> (g_band_sub_assign_ref n m1 m2 n2 p1 p2 = false <-> ok_band_sub_assign_ref n m1 m2 n2 p1 p2).
+Print Assumptions guard_band_sub_assign_ref.
+
+Theorem guard_band_mul_vec : forall n m1 m2 vl : Z, 0 <= n -> 0 <= m1 -> 0 <= m2 -> 0 <= vl -> (g_band_mul_vec n m1 m2 vl = false <-> ok_band_mul_vec n m1 m2 vl).
+Proof. exact guard_band_mul_vec_lemma. Qed.
+Check guard_band_mul_vec : forall n m1 m2 vl : Z, 0 <= n -> 0 <= m1 -> 0 <= m2 -> 0 <= vl -> (g_band_mul_vec n m1 m2 vl = false <-> ok_band_mul_vec n m1 m2 vl).
+Print Assumptions guard_band_mul_vec.
+
+Theorem guard_tri_with_vectors : forall ns nm nu : Z, 0 <= ns -> 0 <= nm -> 0 <= nu -> (g_tri_with_vectors ns nm nu = false <-> ok_tri_with_vectors ns nm nu).
+Proof. exact guard_tri_with_vectors_lemma. Qed.
+Check guard_tri_with_vectors : forall ns nm nu : Z, 0 <= ns -> 0 <= nm -> 0 <= nu -> (g_tri_with_vectors ns nm nu = false <-> ok_tri_with_vectors ns nm nu).
+Print Assumptions guard_tri_with_vectors.
+
+Theorem guard_tri_with_vecs : forall ns nm nu : Z, 0 <= ns -> 0 <= nm -> 0 <= nu -> (g_tri_with_vecs ns nm nu = false <-> ok_tri_with_vecs ns nm nu).
+Proof. exact guard_tri_with_vecs_lemma. Qed.
+Check guard_tri_with_vecs : forall ns nm nu : Z, 0 <= ns -> 0 <= nm -> 0 <= nu -> (g_tri_with_vecs ns nm nu = false <-> ok_tri_with_vecs ns nm nu).
+Print Assumptions guard_tri_with_vecs.
+
+Theorem guard_tri_convert : forall n : Z, 0 <= n -> (g_tri_convert n = false <-> ok_tri_convert n).
+Proof. exact guard_tri_convert_lemma. Qed.
+Check guard_tri_convert : forall n : Z, 0 <= n -> (g_tri_convert n = false <-> ok_tri_convert n).
+Print Assumptions guard_tri_convert.
+
+Theorem guard_tri_solve : forall n rl : Z, 0 <= n -> 0 <= rl -> (g_tri_solve n rl = false <-> ok_tri_solve n rl).
+Proof. exact guard_tri_solve_lemma. Qed.
+Check guard_tri_solve : forall n rl : Z, 0 <= n -> 0 <= rl -> (g_tri_solve n rl = false <-> ok_tri_solve n rl).
+Print Assumptions guard_tri_solve.
+
+Theorem guard_tri_index : forall n i j : Z, 0 <= n -> 0 <= i -> 0 <= j -> (g_tri_index n i j = false <-> ok_tri_index n i j).
+Proof. exact guard_tri_index_lemma. Qed.
+Check guard_tri_index : forall n i j : Z, 0 <= n -> 0 <= i -> 0 <= j -> (g_tri_index n i j = false <-> ok_tri_index n i j).
+Print Assumptions guard_tri_index.
+
+Theorem guard_tri_index_mut : forall n i j : Z, 0 <= n -> 0 <= i -> 0 <= j -> (g_tri_index_mut n i j = false <-> ok_tri_index_mut n i j).
+Proof. exact guard_tri_index_mut_lemma. Qed.
+Check guard_tri_index_mut : forall n i j : Z, 0 <= n -> 0 <= i -> 0 <= j -> (g_tri_index_mut n i j = false <-> ok_tri_index_mut n i j).
+Print Assumptions guard_tri_index_mut.
+
+Theorem guard_tri_add : forall n1 n2 : Z, 0 <= n1 -> 0 <= n2 -> (g_tri_add n1 n2 = false <-> ok_tri_add n1 n2).
+Proof. exact guard_tri_add_lemma. Qed.
+Check guard_tri_add : forall n1 n2 : Z, 0 <= n1 -> 0 <= n2 -> (g_tri_add n1 n2 = false <-> ok_tri_add n1 n2).
+Print Assumptions guard_tri_add.
+
+Theorem guard_tri_sub : forall n1 n2 : Z, 0 <= n1 -> 0 <= n2 -> (g_tri_sub n1 n2 = false <-> ok_tri_sub n1 n2).
+Proof. exact guard_tri_sub_lemma. Qed.
+Check guard_tri_sub : forall n1 n2 : Z, 0 <= n1 -> 0 <= n2 -> (g_tri_sub n1 n2 = false <-> ok_tri_sub n1 n2).
+Print Assumptions guard_tri_sub.
+
+Theorem guard_tri_mul_vec : forall n vl : Z, 0 <= n -> 0 <= vl -> (g_tri_mul_vec n vl = false <-> ok_tri_mul_vec n vl).
+Proof. exact guard_tri_mul_vec_lemma. Qed.
+Check guard_tri_mul_vec : forall n vl : Z, 0 <= n -> 0 <= vl -> (g_tri_mul_vec n vl = false <-> ok_tri_mul_vec n vl).
+Print Assumptions guard_tri_mul_vec.
+
+Theorem guard_sp_from_triplets : forall r c row col : Z, 0 <= r -> 0 <= c -> 0 <= row -> 0 <= col -> (g_sp_from_triplets r c row col = false <-> ok_sp_from_triplets r c row col).
+Proof. exact guard_sp_from_triplets_lemma. Qed.
+Check guard_sp_from_triplets : forall r c row col : Z, 0 <= r -> 0 <= c -> 0 <= row -> 0 <= col -> (g_sp_from_triplets r c row col = false <-> ok_sp_from_triplets r c row col).
+Print Assumptions guard_sp_from_triplets.
+
+Theorem guard_sp_get : forall r c row col : Z, 0 <= r -> 0 <= c -> 0 <= row -> 0 <= col -> (g_sp_get r c row col = false <-> ok_sp_get r c row col).
+Proof. exact guard_sp_get_lemma. Qed.
+Check guard_sp_get : forall r c row col : Z, 0 <= r -> 0 <= c -> 0 <= row -> 0 <= col -> (g_sp_get r c row col = false <-> ok_sp_get r c row col).
+Print Assumptions guard_sp_get.
+
+Theorem guard_sp_insert : forall r c row col : Z, 0 <= r -> 0 <= c -> 0 <= row -> 0 <= col -> (g_sp_insert r c row col = false <-> ok_sp_insert r c row col).
+Proof. exact guard_sp_insert_lemma. Qed.
+Check guard_sp_insert : forall r c row col : Z, 0 <= r -> 0 <= c -> 0 <= row -> 0 <= col -> (g_sp_insert r c row col = false <-> ok_sp_insert r c row col).
+Print Assumptions guard_sp_insert.
+
+Theorem guard_sp_multiply : forall r c xl : Z, 0 <= r -> 0 <= c -> 0 <= xl -> (g_sp_multiply r c xl = false <-> ok_sp_multiply r c xl).
+Proof. exact guard_sp_multiply_lemma. Qed.
+Check guard_sp_multiply : forall r c xl : Z, 0 <= r -> 0 <= c -> 0 <= xl -> (g_sp_multiply r c xl = false <-> ok_sp_multiply r c xl).
+Print Assumptions guard_sp_multiply.
+
+Theorem guard_sp_transpose_multiply : forall r c xl : Z, 0 <= r -> 0 <= c -> 0 <= xl -> (g_sp_transpose_multiply r c xl = false <-> ok_sp_transpose_multiply r c xl).
+Proof. exact guard_sp_transpose_multiply_lemma. Qed.
+Check guard_sp_transpose_multiply : forall r c xl : Z, 0 <= r -> 0 <= c -> 0 <= xl -> (g_sp_transpose_multiply r c xl = false <-> ok_sp_transpose_multiply r c xl).
+Print Assumptions guard_sp_transpose_multiply.
+
+Theorem guard_sp_solve_bicgstab : forall r c bl xl : Z, 0 <= r -> 0 <= c -> 0 <= bl -> 0 <= xl -> (g_sp_solve_bicgstab r c bl xl = false <-> ok_sp_solve_bicgstab r c bl xl).
+Proof. exact guard_sp_solve_bicgstab_lemma. Qed.
+Check guard_sp_solve_bicgstab : forall r c bl xl : Z, 0 <= r -> 0 <= c -> 0 <= bl -> 0 <= xl -> (g_sp_solve_bicgstab r c bl xl = false <-> ok_sp_solve_bicgstab r c bl xl).
+Print Assumptions guard_sp_solve_bicgstab.
+
+Theorem guard_sp_solve_cg : forall r c bl xl : Z, 0 <= r -> 0 <= c -> 0 <= bl -> 0 <= xl -> (g_sp_solve_cg r c bl xl = false <-> ok_sp_solve_cg r c bl xl).
+Proof. exact guard_sp_solve_cg_lemma. Qed.
+Check guard_sp_solve_cg : forall r c bl xl : Z, 0 <= r -> 0 <= c -> 0 <= bl -> 0 <= xl -> (g_sp_solve_cg r c bl xl = false <-> ok_sp_solve_cg r c bl xl).
+Print Assumptions guard_sp_solve_cg.
+
+Theorem guard_sp_solve_qmr : forall r c bl xl : Z, 0 <= r -> 0 <= c -> 0 <= bl -> 0 <= xl -> (g_sp_solve_qmr r c bl xl = false <-> ok_sp_solve_qmr r c bl xl).
+Proof. exact guard_sp_solve_qmr_lemma. Qed.
+Check guard_sp_solve_qmr : forall r c bl xl : Z, 0 <= r -> 0 <= c -> 0 <= bl -> 0 <= xl -> (g_sp_solve_qmr r c bl xl = false <-> ok_sp_solve_qmr r c bl xl).
+Print Assumptions guard_sp_solve_qmr.
+
+Theorem guard_sp_solve_bicg : forall r c bl xl itol : Z, 0 <= r -> 0 <= c -> 0 <= bl -> 0 <= xl -> 0 <= itol -> (g_sp_solve_bicg r c bl xl itol = false <-> ok_sp_solve_bicg r c bl xl itol).
+Proof. exact guard_sp_solve_bicg_lemma. Qed.
+Check guard_sp_solve_bicg : forall r c bl xl itol : Z, 0 <= r -> 0 <= c -> 0 <= bl -> 0 <= xl -> 0 <= itol -> (g_sp_solve_bicg r c bl xl itol = false <-> ok_sp_solve_bicg r c bl xl itol).
+Print Assumptions guard_sp_solve_bicg.
+
+Theorem guard_mesh1_set_nodes_vars : forall nn nv node vl : Z, 0 <= nn -> 0 <= nv -> 0 <= node -> 0 <= vl -> (g_mesh1_set_nodes_vars nn nv node vl = false <-> ok_mesh1_set_nodes_vars nn nv node vl).
+Proof. exact guard_mesh1_set_nodes_vars_lemma. Qed.
+Check guard_mesh1_set_nodes_vars : forall nn nv node vl : Z, 0 <= nn -> 0 <= nv -> 0 <= node -> 0 <= vl -> (g_mesh1_set_nodes_vars nn nv node vl = false <-> ok_mesh1_set_nodes_vars nn nv node vl).
+Print Assumptions guard_mesh1_set_nodes_vars.
+
+Theorem guard_mesh1_get_nodes_vars : forall nn nv node : Z, 0 <= nn -> 0 <= nv -> 0 <= node -> (g_mesh1_get_nodes_vars nn nv node = false <-> ok_mesh1_get_nodes_vars nn nv node).
+Proof. exact guard_mesh1_get_nodes_vars_lemma. Qed.
+Check guard_mesh1_get_nodes_vars : forall nn nv node : Z, 0 <= nn -> 0 <= nv -> 0 <= node -> (g_mesh1_get_nodes_vars nn nv node = false <-> ok_mesh1_get_nodes_vars nn nv node).
+Print Assumptions guard_mesh1_get_nodes_vars.
+
+Theorem guard_mesh2_set_nodes_vars : forall nx ny nv i j vl : Z, 0 <= nx -> 0 <= ny -> 0 <= nv -> 0 <= i -> 0 <= j -> 0 <= vl -> (g_mesh2_set_nodes_vars nx ny nv i j vl = false <-> ok_mesh2_set_nodes_vars nx ny nv i j vl).
+Proof. exact guard_mesh2_set_nodes_vars_lemma. Qed.
+Check guard_mesh2_set_nodes_vars : forall nx ny nv i j vl : Z, 0 <= nx -> 0 <= ny -> 0 <= nv -> 0 <= i -> 0 <= j -> 0 <= vl -> (g_mesh2_set_nodes_vars nx ny nv i j vl = false <-> ok_mesh2_set_nodes_vars nx ny nv i j vl).
+Print Assumptions guard_mesh2_set_nodes_vars.
+
+Theorem guard_mesh2_get_nodes_vars : forall nx ny i j : Z, 0 <= nx -> 0 <= ny -> 0 <= i -> 0 <= j -> (g_mesh2_get_nodes_vars nx ny i j = false <-> ok_mesh2_get_nodes_vars nx ny i j).
+Proof. exact guard_mesh2_get_nodes_vars_lemma. Qed.
+Check guard_mesh2_get_nodes_vars : forall nx ny i j : Z, 0 <= nx -> 0 <= ny -> 0 <= i -> 0 <= j -> (g_mesh2_get_nodes_vars nx ny i j = false <-> ok_mesh2_get_nodes_vars nx ny i j).
+Print Assumptions guard_mesh2_get_nodes_vars.
+
+Theorem guard_mesh2_var_as_matrix : forall nx ny nv var : Z, 0 <= nx -> 0 <= ny -> 0 <= nv -> 0 <= var -> (g_mesh2_var_as_matrix nx ny nv var = false <-> ok_mesh2_var_as_matrix nx ny nv var).
+Proof. exact guard_mesh2_var_as_matrix_lemma. Qed.
+Check guard_mesh2_var_as_matrix : forall nx ny nv var : Z, 0 <= nx -> 0 <= ny -> 0 <= nv -> 0 <= var -> (g_mesh2_var_as_matrix nx ny nv var = false <-> ok_mesh2_var_as_matrix nx ny nv var).
+Print Assumptions guard_mesh2_var_as_matrix.
+
+Theorem guard_poly_index : forall len i : Z, 0 <= len -> 0 <= i -> (g_poly_index len i = false <-> ok_poly_index len i).
+Proof. exact guard_poly_index_lemma. Qed.
+Check guard_poly_index : forall len i : Z, 0 <= len -> 0 <= i -> (g_poly_index len i = false <-> ok_poly_index len i).
+Print Assumptions guard_poly_index.
+
+Theorem guard_poly_index_mut : forall len i : Z, 0 <= len -> 0 <= i -> (g_poly_index_mut len i = false <-> ok_poly_index_mut len i).
+Proof. exact guard_poly_index_mut_lemma. Qed.
+Check guard_poly_index_mut : forall len i : Z, 0 <= len -> 0 <= i -> (g_poly_index_mut len i = false <-> ok_poly_index_mut len i).
+Print Assumptions guard_poly_index_mut.
+
+Theorem guard_poly_roots_degree : forall len : Z, 0 <= len -> 1 <= len -> (g_poly_roots_degree len = false <-> ok_poly_roots_degree len).
+Proof. exact guard_poly_roots_degree_lemma. Qed.
+Check guard_poly_roots_degree : forall len : Z, 0 <= len -> 1 <= len -> (g_poly_roots_degree len = false <-> ok_poly_roots_degree len).
+Print Assumptions guard_poly_roots_degree.
+
+(* non-vacuity: every range specification has an instance that holds (and the guards let it through) *)
+Example guard_vec_add_ref_nonvacuous : ok_vec_add_ref (0) (0) /\ g_vec_add_ref (0) (0) = false.
+Proof. unfold ok_vec_add_ref, g_vec_add_ref; split; [lia | reflexivity]. Qed.
+Example guard_vec_sub_ref_nonvacuous : ok_vec_sub_ref (0) (0) /\ g_vec_sub_ref (0) (0) = false.
+Proof. unfold ok_vec_sub_ref, g_vec_sub_ref; split; [lia | reflexivity]. Qed.
+Example guard_vec_add_assign_nonvacuous : ok_vec_add_assign (0) (0) /\ g_vec_add_assign (0) (0) = false.
+Proof. unfold ok_vec_add_assign, g_vec_add_assign; split; [lia | reflexivity]. Qed.
+Example guard_vec_sub_assign_nonvacuous : ok_vec_sub_assign (0) (0) /\ g_vec_sub_assign (0) (0) = false.
+Proof. unfold ok_vec_sub_assign, g_vec_sub_assign; split; [lia | reflexivity]. Qed.
+Example guard_vec_dot_nonvacuous : ok_vec_dot (0) (0) /\ g_vec_dot (0) (0) = false.
+Proof. unfold ok_vec_dot, g_vec_dot; split; [lia | reflexivity]. Qed.
+Example guard_vec_dot_f64_nonvacuous : ok_vec_dot_f64 (0) (0) /\ g_vec_dot_f64 (0) (0) = false.
+Proof. unfold ok_vec_dot_f64, g_vec_dot_f64; split; [lia | reflexivity]. Qed.
+Example guard_vec_sum_slice_nonvacuous : ok_vec_sum_slice (1) (0) (0) /\ g_vec_sum_slice (1) (0) (0) = false.
+Proof. unfold ok_vec_sum_slice, g_vec_sum_slice; split; [lia | reflexivity]. Qed.
+Example guard_vec_product_slice_nonvacuous : ok_vec_product_slice (1) (0) (0) /\ g_vec_product_slice (1) (0) (0) = false.
+Proof. unfold ok_vec_product_slice, g_vec_product_slice; split; [lia | reflexivity]. Qed.
+Example guard_mat_get_row_nonvacuous : ok_mat_get_row (1) (0) (0) /\ g_mat_get_row (1) (0) (0) = false.
+Proof. unfold ok_mat_get_row, g_mat_get_row; split; [lia | reflexivity]. Qed.
+Example guard_mat_get_col_nonvacuous : ok_mat_get_col (0) (1) (0) /\ g_mat_get_col (0) (1) (0) = false.
+Proof. unfold ok_mat_get_col, g_mat_get_col; split; [lia | reflexivity]. Qed.
+Example guard_mat_set_row_nonvacuous : ok_mat_set_row (1) (0) (0) (0) /\ g_mat_set_row (1) (0) (0) (0) = false.
+Proof. unfold ok_mat_set_row, g_mat_set_row; split; [lia | reflexivity]. Qed.
+Example guard_mat_set_col_nonvacuous : ok_mat_set_col (0) (1) (0) (0) /\ g_mat_set_col (0) (1) (0) (0) = false.
+Proof. unfold ok_mat_set_col, g_mat_set_col; split; [lia | reflexivity]. Qed.
+Example guard_mat_delete_row_nonvacuous : ok_mat_delete_row (1) (0) (0) /\ g_mat_delete_row (1) (0) (0) = false.
+Proof. unfold ok_mat_delete_row, g_mat_delete_row; split; [lia | reflexivity]. Qed.
+Example guard_mat_multiply_nonvacuous : ok_mat_multiply (0) (0) (0) /\ g_mat_multiply (0) (0) (0) = false.
+Proof. unfold ok_mat_multiply, g_mat_multiply; split; [lia | reflexivity]. Qed.
+Example guard_mat_swap_rows_nonvacuous : ok_mat_swap_rows (1) (0) (0) (0) /\ g_mat_swap_rows (1) (0) (0) (0) = false.
+Proof. unfold ok_mat_swap_rows, g_mat_swap_rows; split; [lia | reflexivity]. Qed.
+Example guard_mat_fill_row_nonvacuous : ok_mat_fill_row (1) (0) (0) /\ g_mat_fill_row (1) (0) (0) = false.
+Proof. unfold ok_mat_fill_row, g_mat_fill_row; split; [lia | reflexivity]. Qed.
+Example guard_mat_fill_col_nonvacuous : ok_mat_fill_col (0) (1) (0) /\ g_mat_fill_col (0) (1) (0) = false.
+Proof. unfold ok_mat_fill_col, g_mat_fill_col; split; [lia | reflexivity]. Qed.
+Example guard_mat_solve_basic_nonvacuous : ok_mat_solve_basic (1) (1) (1) /\ g_mat_solve_basic (1) (1) (1) = false.
+Proof. unfold ok_mat_solve_basic, g_mat_solve_basic; split; [lia | reflexivity]. Qed.
+Example guard_mat_lu_nonvacuous : ok_mat_lu (0) (0) /\ g_mat_lu (0) (0) = false.
+Proof. unfold ok_mat_lu, g_mat_lu; split; [lia | reflexivity]. Qed.
+Example guard_mat_solve_lu_nonvacuous : ok_mat_solve_lu (1) (1) (1) /\ g_mat_solve_lu (1) (1) (1) = false.
+Proof. unfold ok_mat_solve_lu, g_mat_solve_lu; split; [lia | reflexivity]. Qed.
+Example guard_mat_inverse_nonvacuous : ok_mat_inverse (0) (0) /\ g_mat_inverse (0) (0) = false.
+Proof. unfold ok_mat_inverse, g_mat_inverse; split; [lia | reflexivity]. Qed.
+Example guard_mat_determinant_nonvacuous : ok_mat_determinant (0) (0) /\ g_mat_determinant (0) (0) = false.
+Proof. unfold ok_mat_determinant, g_mat_determinant; split; [lia | reflexivity]. Qed.
+Example guard_mat_add_ref_nonvacuous : ok_mat_add_ref (0) (0) (0) (0) /\ g_mat_add_ref (0) (0) (0) (0) = false.
+Proof. unfold ok_mat_add_ref, g_mat_add_ref; split; [lia | reflexivity]. Qed.
+Example guard_mat_sub_ref_nonvacuous : ok_mat_sub_ref (0) (0) (0) (0) /\ g_mat_sub_ref (0) (0) (0) (0) = false.
+Proof. unfold ok_mat_sub_ref, g_mat_sub_ref; split; [lia | reflexivity]. Qed.
+Example guard_mat_add_assign_ref_nonvacuous : ok_mat_add_assign_ref (0) (0) (0) (0) /\ g_mat_add_assign_ref (0) (0) (0) (0) = false.
+Proof. unfold ok_mat_add_assign_ref, g_mat_add_assign_ref; split; [lia | reflexivity]. Qed.
+Example guard_mat_sub_assign_ref_nonvacuous : ok_mat_sub_assign_ref (0) (0) (0) (0) /\ g_mat_sub_assign_ref (0) (0) (0) (0) = false.
+Proof. unfold ok_mat_sub_assign_ref, g_mat_sub_assign_ref; split; [lia | reflexivity]. Qed.
+Example guard_mat_mul_ref_nonvacuous : ok_mat_mul_ref (0) (0) (0) (0) /\ g_mat_mul_ref (0) (0) (0) (0) = false.
+Proof. unfold ok_mat_mul_ref, g_mat_mul_ref; split; [lia | reflexivity]. Qed.
+Example guard_band_fill_band_nonvacuous : ok_band_fill_band (0) (0) (0) (0) /\ g_band_fill_band (0) (0) (0) (0) = false.
+Proof. unfold ok_band_fill_band, g_band_fill_band; split; [lia | reflexivity]. Qed.
+Example guard_band_solve_nonvacuous : ok_band_solve (1) (0) (0) (1) /\ g_band_solve (1) (0) (0) (1) = false.
+Proof. unfold ok_band_solve, g_band_solve; split; [lia | reflexivity]. Qed.
+Example guard_band_index_nonvacuous : ok_band_index (1) (0) (0) (0) (0) /\ g_band_index (1) (0) (0) (0) (0) = false.
+Proof. unfold ok_band_index, g_band_index; split; [lia | reflexivity]. Qed.
+Example guard_band_index_mut_nonvacuous : ok_band_index_mut (1) (0) (0) (0) (0) /\ g_band_index_mut (1) (0) (0) (0) (0) = false.
+Proof. unfold ok_band_index_mut, g_band_index_mut; split; [lia | reflexivity]. Qed.
+Example guard_band_add_ref_nonvacuous : ok_band_add_ref (0) (0) (0) (0) (0) (0) /\ g_band_add_ref (0) (0) (0) (0) (0) (0) = false.
+Proof. unfold ok_band_add_ref, g_band_add_ref; split; [lia | reflexivity]. Qed.
+Example guard_band_sub_ref_nonvacuous : ok_band_sub_ref (0) (0) (0) (0) (0) (0) /\ g_band_sub_ref (0) (0) (0) (0) (0) (0) = false.
+Proof. unfold ok_band_sub_ref, g_band_sub_ref; split; [lia | reflexivity]. Qed.
+Example guard_band_add_assign_ref_nonvacuous : ok_band_add_assign_ref (0) (0) (0) (0) (0) (0) /\ g_band_add_assign_ref (0) (0) (0) (0) (0) (0) = false.
+Proof. unfold ok_band_add_assign_ref, g_band_add_assign_ref; split; [lia | reflexivity]. Qed.
+Example guard_band_sub_assign_ref_nonvacuous : ok_band_sub_assign_ref (0) (0) (0) (0) (0) (0) /\ g_band_sub_assign_ref (0) (0) (0) (0) (0) (0) = false.
+Proof. unfold ok_band_sub_assign_ref, g_band_sub_assign_ref; split; [lia | reflexivity]. Qed.
+Example guard_band_mul_vec_nonvacuous : ok_band_mul_vec (0) (0) (0) (0) /\ g_band_mul_vec (0) (0) (0) (0) = false.
+Proof. unfold ok_band_mul_vec, g_band_mul_vec; split; [lia | reflexivity]. Qed.
+Example guard_tri_with_vectors_nonvacuous : ok_tri_with_vectors (0) (1) (0) /\ g_tri_with_vectors (0) (1) (0) = false.
+Proof. unfold ok_tri_with_vectors, g_tri_with_vectors; split; [lia | reflexivity]. Qed.
+Example guard_tri_with_vecs_nonvacuous : ok_tri_with_vecs (0) (1) (0) /\ g_tri_with_vecs (0) (1) (0) = false.
+Proof. unfold ok_tri_with_vecs, g_tri_with_vecs; split; [lia | reflexivity]. Qed.
+Example guard_tri_convert_nonvacuous : ok_tri_convert (1) /\ g_tri_convert (1) = false.
+Proof. unfold ok_tri_convert, g_tri_convert; split; [lia | reflexivity]. Qed.
+Example guard_tri_solve_nonvacuous : ok_tri_solve (1) (1) /\ g_tri_solve (1) (1) = false.
+Proof. unfold ok_tri_solve, g_tri_solve; split; [lia | reflexivity]. Qed.
+Example guard_tri_index_nonvacuous : ok_tri_index (1) (0) (0) /\ g_tri_index (1) (0) (0) = false.
+Proof. unfold ok_tri_index, g_tri_index; split; [lia | reflexivity]. Qed.
+Example guard_tri_index_mut_nonvacuous : ok_tri_index_mut (1) (0) (0) /\ g_tri_index_mut (1) (0) (0) = false.
+Proof. unfold ok_tri_index_mut, g_tri_index_mut; split; [lia | reflexivity]. Qed.
+Example guard_tri_add_nonvacuous : ok_tri_add (1) (1) /\ g_tri_add (1) (1) = false.
+Proof. unfold ok_tri_add, g_tri_add; split; [lia | reflexivity]. Qed.
+Example guard_tri_sub_nonvacuous : ok_tri_sub (1) (1) /\ g_tri_sub (1) (1) = false.
+Proof. unfold ok_tri_sub, g_tri_sub; split; [lia | reflexivity]. Qed.
+Example guard_tri_mul_vec_nonvacuous : ok_tri_mul_vec (1) (1) /\ g_tri_mul_vec (1) (1) = false.
+Proof. unfold ok_tri_mul_vec, g_tri_mul_vec; split; [lia | reflexivity]. Qed.
+Example guard_sp_from_triplets_nonvacuous : ok_sp_from_triplets (1) (1) (0) (0) /\ g_sp_from_triplets (1) (1) (0) (0) = false.
+Proof. unfold ok_sp_from_triplets, g_sp_from_triplets; split; [lia | reflexivity]. Qed.
+Example guard_sp_get_nonvacuous : ok_sp_get (1) (1) (0) (0) /\ g_sp_get (1) (1) (0) (0) = false.
+Proof. unfold ok_sp_get, g_sp_get; split; [lia | reflexivity]. Qed.
+Example guard_sp_insert_nonvacuous : ok_sp_insert (1) (1) (0) (0) /\ g_sp_insert (1) (1) (0) (0) = false.
+Proof. unfold ok_sp_insert, g_sp_insert; split; [lia | reflexivity]. Qed.
+Example guard_sp_multiply_nonvacuous : ok_sp_multiply (0) (0) (0) /\ g_sp_multiply (0) (0) (0) = false.
+Proof. unfold ok_sp_multiply, g_sp_multiply; split; [lia | reflexivity]. Qed.
+Example guard_sp_transpose_multiply_nonvacuous : ok_sp_transpose_multiply (0) (0) (0) /\ g_sp_transpose_multiply (0) (0) (0) = false.
+Proof. unfold ok_sp_transpose_multiply, g_sp_transpose_multiply; split; [lia | reflexivity]. Qed.
+Example guard_sp_solve_bicgstab_nonvacuous : ok_sp_solve_bicgstab (0) (0) (0) (0) /\ g_sp_solve_bicgstab (0) (0) (0) (0) = false.
+Proof. unfold ok_sp_solve_bicgstab, g_sp_solve_bicgstab; split; [lia | reflexivity]. Qed.
+Example guard_sp_solve_cg_nonvacuous : ok_sp_solve_cg (0) (0) (0) (0) /\ g_sp_solve_cg (0) (0) (0) (0) = false.
+Proof. unfold ok_sp_solve_cg, g_sp_solve_cg; split; [lia | reflexivity]. Qed.
+Example guard_sp_solve_qmr_nonvacuous : ok_sp_solve_qmr (0) (0) (0) (0) /\ g_sp_solve_qmr (0) (0) (0) (0) = false.
+Proof. unfold ok_sp_solve_qmr, g_sp_solve_qmr; split; [lia | reflexivity]. Qed.
+Example guard_sp_solve_bicg_nonvacuous : ok_sp_solve_bicg (0) (0) (0) (0) (1) /\ g_sp_solve_bicg (0) (0) (0) (0) (1) = false.
+Proof. unfold ok_sp_solve_bicg, g_sp_solve_bicg; split; [lia | reflexivity]. Qed.
+Example guard_mesh1_set_nodes_vars_nonvacuous : ok_mesh1_set_nodes_vars (1) (0) (0) (0) /\ g_mesh1_set_nodes_vars (1) (0) (0) (0) = false.
+Proof. unfold ok_mesh1_set_nodes_vars, g_mesh1_set_nodes_vars; split; [lia | reflexivity]. Qed.
+Example guard_mesh1_get_nodes_vars_nonvacuous : ok_mesh1_get_nodes_vars (1) (0) (0) /\ g_mesh1_get_nodes_vars (1) (0) (0) = false.
+Proof. unfold ok_mesh1_get_nodes_vars, g_mesh1_get_nodes_vars; split; [lia | reflexivity]. Qed.
+Example guard_mesh2_set_nodes_vars_nonvacuous : ok_mesh2_set_nodes_vars (1) (1) (0) (0) (0) (0) /\ g_mesh2_set_nodes_vars (1) (1) (0) (0) (0) (0) = false.
+Proof. unfold ok_mesh2_set_nodes_vars, g_mesh2_set_nodes_vars; split; [lia | reflexivity]. Qed.
+Example guard_mesh2_get_nodes_vars_nonvacuous : ok_mesh2_get_nodes_vars (1) (1) (0) (0) /\ g_mesh2_get_nodes_vars (1) (1) (0) (0) = false.
+Proof. unfold ok_mesh2_get_nodes_vars, g_mesh2_get_nodes_vars; split; [lia | reflexivity]. Qed.
+Example guard_mesh2_var_as_matrix_nonvacuous : ok_mesh2_var_as_matrix (0) (0) (1) (0) /\ g_mesh2_var_as_matrix (0) (0) (1) (0) = false.
+Proof. unfold ok_mesh2_var_as_matrix, g_mesh2_var_as_matrix; split; [lia | reflexivity]. Qed.
+Example guard_poly_index_nonvacuous : ok_poly_index (1) (0) /\ g_poly_index (1) (0) = false.
+Proof. unfold ok_poly_index, g_poly_index; split; [lia | reflexivity]. Qed.
+Example guard_poly_index_mut_nonvacuous : ok_poly_index_mut (1) (0) /\ g_poly_index_mut (1) (0) = false.
+Proof. unfold ok_poly_index_mut, g_poly_index_mut; split; [lia | reflexivity]. Qed.
+Example guard_poly_roots_degree_nonvacuous : ok_poly_roots_degree (2) /\ g_poly_roots_degree (2) = false.
+Proof. unfold ok_poly_roots_degree, g_poly_roots_degree; split; [lia | reflexivity]. Qed.
